@@ -244,6 +244,15 @@ def ite(c, a, b):
         return c
     if a is FALSE and b is TRUE:
         return not_(c)
+    # one branch a boolean literal: the other branch is boolean too, so this is a conjunction / disjunction
+    if b is FALSE:
+        return and_(c, a)
+    if a is FALSE:
+        return and_(not_(c), b)
+    if a is TRUE:
+        return or_(c, b)
+    if b is TRUE:
+        return or_(not_(c), a)
     # nested ite on the same condition
     if a.op == "ite" and a.args[0] is c:
         a = a.args[1]
